@@ -4,7 +4,6 @@
 //! This is a complete enumeration of the environment's answer space for one attempt, reported separately
 //! from the seeded exploration (`exhaustive_over_words`).
 
-use crate::exec::PanicClass;
 use crate::json::{hex, unhex, J};
 use crate::refint;
 use crate::simrng::SimRng;
@@ -264,5 +263,3 @@ impl SweepJob {
     }
 }
 
-#[allow(dead_code)]
-pub fn _unused(_: PanicClass) {}
